@@ -1553,15 +1553,12 @@ def scripted_cache():
     Vertex.NEIGHBOR_CACHING = True
 
     # filters as dictionary keys: unhashable ones cannot be used with the
-    # cache; such a query is simply never cached and nothing is counted (since
-    # ffc7541 -- it raised TypeError before that); they work without it, too
+    # cache (TypeError before anything is counted), but work without it
     s0 = stats()
-    for _ in range(2):
-        res = outcome(helpers.neighbors, a, FWD, ERR, UnhashableFilter())
-        check(res[0] == "ok" and same_seq(res[1], [b]), "unhashable", res)
-        res = outcome(helpers.neighbors, a, [], ERR)
-        check(res[0] == "exc" and type(res[1]) is ValueError, "unhashable dir",
-              res)
+    res = outcome(helpers.neighbors, a, FWD, ERR, UnhashableFilter())
+    check(res[0] == "exc" and type(res[1]) is TypeError, "unhashable", res)
+    res = outcome(helpers.neighbors, a, [], ERR)
+    check(res[0] == "exc" and type(res[1]) is TypeError, "unhashable dir", res)
     check(stat_delta(s0, stats()) == [0, 0, 0, 0, 0], "nothing counted")
     Vertex.NEIGHBOR_CACHING = False
     check(same_seq(nb(a, FWD, ERR, UnhashableFilter()), [b]), "off: fine")
